@@ -933,7 +933,9 @@ def check_interval(fx, R):
                 for (il, iu) in ((0.0, 2.0), (2.0, 5.0), (0.0, 5.0), (1.5, 2.5), (4.0, 6.0), (-3.0, -2.0), (4.0, 4.0), (0.0, 0.0), (2.0, 2.0), (1.0, 1.0), (3.0, 3.0)):
                     env = {'this.lower_': 1.0, 'this.upper_': 3.0, 'ilo': il, 'ihi': iu}
                     try:
-                        mini.Step(acc_names).call(fc['body'], env)
+                        stp_ = mini.Step(acc_names)
+                        stp_.fallback = mini.inliner(fx, stp_, cls=fc.get('cls'))          # include() written with the class's own predicates (inside(), width()...)
+                        stp_.call(fc['body'], env)
                     except mini.Unsupported as e:
                         step_verdict = ('undecided', str(e))
                         break
